@@ -362,23 +362,23 @@ theorem applyRecs_RWF (x : Idx) (f : Nat) (rs : List Rec) (w : x.RWF) : (x.apply
 /-- every record of the logs with the number of its log -/
 def pairsOf (fs : List LogFile) : List (Nat × Rec) := fs.flatMap (fun F => (recsOfFile F).map (F.num, ·))
 
-theorem replayFiles_RWF (x : Idx) (fs : List LogFile) (w : x.RWF) : (replayFiles x fs).RWF := by
+theorem replayFiles_RWF (x : Idx) (fs : List LogFile) (hs : ∀ f ∈ fs, SeqOK f) (w : x.RWF) : (replayFiles x fs).RWF := by
   induction fs generalizing x with
   | nil => exact w
   | cons f fs ih =>
     simp only [replayFiles, List.foldl_cons]
-    apply ih
-    rw [replayFile_eq]
+    apply ih _ (fun g hg => hs g (List.mem_cons_of_mem _ hg))
+    rw [replayFile_eq _ _ (hs f List.mem_cons_self)]
     exact applyRecs_RWF x f.num _ w
 
-theorem replayFiles_covers (x : Idx) (fs : List LogFile) (ps : List (Nat × Rec)) (c : Covers x ps) :
+theorem replayFiles_covers (x : Idx) (fs : List LogFile) (hs : ∀ f ∈ fs, SeqOK f) (ps : List (Nat × Rec)) (c : Covers x ps) :
     Covers (replayFiles x fs) (ps ++ pairsOf fs) := by
   induction fs generalizing x ps with
   | nil => simpa [replayFiles, pairsOf] using c
   | cons f fs ih =>
     have hstep : replayFiles x (f :: fs) = replayFiles (replayFile x f) fs := rfl
-    rw [hstep, replayFile_eq]
-    have := ih _ _ (c.steps f.num (recsOfFile f))
+    rw [hstep, replayFile_eq _ _ (hs f List.mem_cons_self)]
+    have := ih _ (fun g hg => hs g (List.mem_cons_of_mem _ hg)) _ (c.steps f.num (recsOfFile f))
     simpa [pairsOf, List.append_assoc] using this
 
 /-- `cleanupObsoleteWALs` computes a bound that is at most every referenced log number. -/
